@@ -160,9 +160,38 @@ class Cost:
                 else:
                     cost = max(cost, UNKNOWN)
                     notes.append("%s per element: %s" % (NAMES[c], why))
+        # values of crate types with a destructor that go out of scope here (a guard struct): the destructor runs on the
+        # normal path too, unless the drop is provably skipped - counted as a call of `<T as Drop>::drop`
+        for bi in sorted(cfg.reach):
+            t = f.term(bi)
+            if t["k"] != "drop":
+                continue
+            dk = drop_impl_of(self.prog, t["place"].get("ty") or "")
+            if dk is None or dk == key:
+                continue
+            c = self.fn_cost(dk, stack)
+            if c == ZERO:
+                continue
+            if cfg.in_loop(bi) and c > ZERO:
+                c = max(c, NLOGN) if c >= LOG else BULK
+            cost = max(cost, c)
+            notes.append("%s: destructor %s runs when the value goes out of scope (line %d)" % (NAMES[c], short(dk), t["span"]["line"]))
         self.memo[key] = cost
         self.detail[key] = notes
         return cost
+
+
+def drop_impl_of(prog, ty):
+    """key of `<T as Drop>::drop` for a place type string naming a crate type with a destructor, else None"""
+    head = ty.split("<", 1)[0].strip().lstrip("&").replace("mut ", "").strip()
+    if not head:
+        return None
+    for im in prog.impls:
+        if im.get("trait") == "std::ops::Drop" and (im["self_desc"] == head or im["self_desc"].split("<")[0] == head):
+            for it in im["items"]:
+                if it["name"] == "drop":
+                    return it["key"]
+    return None
 
 
 def floyd_shape(view, f, lp, bb):
@@ -217,6 +246,12 @@ def r_cost(ctx, view):
     co = Cost(view)
     n = 0
     for Q in QUEUES:
+        dk = "<%s as Deserialize>::deserialize" % Q
+        if prog.fn(dk) is not None:
+            c = co.fn_cost(dk)
+            n += 1
+            ctx.ob("R-COST", "%s::<Deserialize>::deserialize" % QNAME[Q], c == BULK, prog.fn(dk).loc(),
+                   "class %s expected (one rebuild after reading the sequence), analysis gives %s (%s)" % (NAMES[BULK], NAMES[c], "; ".join(co.detail.get(dk, [])[:3])))
         for cls, names in EXPECT[Q].items():
             for nm in names:
                 k = key_of(Q, nm)
